@@ -13,6 +13,10 @@ func init() {
 		Level:       "held on every executed case: complete sweep of all sequences up to length 8 (thorough 10) over push(3 values)/pop/observe for both stack implementations plus seeded random sequences that repeatedly empty and refill; every Pop result and Size/Peek/Search compared with a slice model, drain with Peek before each Pop, Pop-on-empty",
 		Technique:   "reference-model trace monitor (LIFO slice model) over systematic small-scope sweep + seeded random sequences",
 		Assumptions: []string{"the slice model and the generators are trusted", "single goroutine; concurrency is C01/C02"}})
+	reg(&propCfg{ID: "C07", Pkg: "./props/c07", Variants: simple(false),
+		Level:       "held on every executed case: complete sweep of all sequences up to length 5 (thorough 6) of the eight operations over 3 keys for capacities 1..3 and up to length 4 (5) over 5 keys for capacities 3..4, plus seeded random long sequences with capacities up to 16; every return value compared with a recency-list model, Count/GetYoungest after every step, final drain by RemoveOldest",
+		Technique:   "reference-model trace monitor (recency-list model) over systematic small-scope sweep + seeded random sequences",
+		Assumptions: []string{"the recency-list model (refresh on Add, Get, GetOldest only) and the generators are trusted", "LRUCache is single-threaded by contract"}})
 	reg(&propCfg{ID: "C04", Pkg: "./props/c04", Variants: simple(false),
 		Technique:   "reference-model trace monitor (map model) over systematic small-scope sweep + seeded random sequences",
 		Assumptions: []string{"the map model and the generators are trusted", "single goroutine; concurrency is C01/C02"}})
